@@ -544,11 +544,16 @@ func (st *tunnelServerStream) readMsgLocked() (data []byte, ok bool, err error) 
 
 		in, ok := st.receiver.dequeue()
 		if !ok {
-			var err error
 			if halfClosedErr := st.halfClosed.Load(); halfClosedErr != nil {
-				err = halfClosedErr.error
+				return nil, true, halfClosedErr.error
 			}
-			return nil, true, err
+			// The receiver was cancelled (the stream's context ended)
+			// before a half-close was recorded. Never report success
+			// here: that would fabricate an empty message.
+			if err := st.ctx.Err(); err != nil {
+				return nil, true, err
+			}
+			return nil, true, context.Canceled
 		}
 
 		switch in := in.(type) {
